@@ -7,6 +7,12 @@ error result carries no encoder — the caller still holds the encoder it passed
 bit.  (In the Rust code the model lookup `left_cumulative_and_probability(..).ok_or_else(..)?`
 precedes every assignment to `self`; the correspondence runs compare the raw parts after
 every `encnone` op and the oracle after every out-of-support attempt.)
+
+**Scope:** "coder intact after a failed call" is about `ImpossibleSymbol` only.  A failed
+*backend write* may leave `range` updated (`queue.rs:571` assigns `self.state.range` before the
+writes at 591/628); the modelled backend is a `Vec`, whose writes cannot fail, and C09 requires
+write-failure atomicity only of the ANS coder.  `Fits`/`MsgFits`: head-room of the 64-bit
+`usize` counters (see C02_range).
 -/
 namespace CV.Range
 
@@ -20,28 +26,30 @@ theorem C09_range_impossible_rejected {Sym : Type} (c : Cfg) (m : Model Sym) (e 
 /-- conversely, on states satisfying the invariant `ImpossibleSymbol` is returned *only* for
     such symbols: the code's second `ImpossibleSymbol` exit (`scale · probability = 0`) is dead -/
 theorem C09_range_impossible_iff {Sym : Type} {c : Cfg} (hc : RValid c) {m : Model Sym}
-    (hm : m.WellFormed c.P) {e : Encoder} (hI : Inv c e) (s : Sym) :
+    (hm : m.WellFormed c.P) {e : Encoder} (hI : Inv c e) (hf : Fits c e 1) (s : Sym) :
     encode c m s e = .error .impossible ↔ m.enc s = none :=
-  encode_impossible_iff hc hm hI s
+  encode_impossible_iff hc hm hI hf s
 
 /-- **history level**: in a history of encode attempts where the caller carries on with the same
     encoder after each rejection, the rejected attempts can be erased: the final encoder is
     that of the history without them. -/
 theorem C09_range_attempts_erasure {Sym : Type} {c : Cfg} (xs : List (MStep Sym)) (e : Encoder)
-    (hI : Inv c e) (hv : ∀ x ∈ xs, x.DecValid c) :
+    (hI : Inv c e) (hf : Fits c e (xs.filter MStep.possible).length)
+    (hv : ∀ x ∈ xs, x.DecValid c) :
     encodeAttempts c e xs = encodeMsg c e (xs.filter MStep.possible) :=
-  attempts_erasure xs e hI hv
+  attempts_erasure xs e hI hf hv
 
 /-- … hence everything encoded before, between and after rejected attempts still round-trips -/
 theorem C09_range_roundtrip_after_rejections {Sym : Type} {c : Cfg} (hc : RValid c)
-    (xs : List (MStep Sym)) (hv : ∀ x ∈ xs, x.DecValid c) :
+    (xs : List (MStep Sym)) (hn : MsgFits c (xs.filter MStep.possible).length)
+    (hv : ∀ x ∈ xs, x.DecValid c) :
     ∃ e ws d0 d, encodeAttempts c (Encoder.empty c) xs = .ok e ∧
       intoCompressed c e = .ok ws ∧
       Decoder.fromCompressed c ws = .ok d0 ∧
       decodeMsg c d0 (xs.filter MStep.possible)
         = .ok ((xs.filter MStep.possible).map (·.sym), d) ∧
       d.maybeExhausted c = .ok true :=
-  roundtrip_after_rejections hc xs hv
+  roundtrip_after_rejections hc xs hn hv
 
 /-! non-vacuity: symbol 0 of `cutModel 0 3 4`-style models has an empty interval; symbol 7 is
 outside every `cutModel`; rejected while the encoder holds back a word -/
